@@ -83,6 +83,9 @@ struct GenSub {
     valid2: Option<Layout2>,
 }
 
+/// Characters of scripts that Big5 (incl. the WHATWG / HKSCS extensions) does not encode.
+const NO_BIG5_CODE: &[u32] = &[0x092E, 0x0E01, 0x0627, 0x05D0, 0x0B95, 0x1000, 0x1780, 0xAC00, 0x1F600, 0x10330, 0xE0100];
+
 fn gen_subtable(rng: &mut Rng, format: u16, max_gid: u16) -> GenSub {
     match format {
         0 => {
@@ -346,6 +349,13 @@ impl C06 {
                         m.insert(c, 1 + rng.below(max_gid as usize) as u16);
                     }
                 }
+                // NUL (and other control codes) mapped to a real glyph, as many fonts do (.null)
+                if rng.bool() {
+                    m.insert(0, 1 + rng.below(max_gid as usize) as u16);
+                    if rng.bool() {
+                        m.insert(1 + rng.below(0x1F) as u32, 1 + rng.below(max_gid as usize) as u16);
+                    }
+                }
                 let l = Layout4::choose(&m, rng);
                 gsub = GenSub { format: 4, bytes: l.write(0), expected: m, max_code: 0xFFFF, desc: "big5 fmt4".into(), valid2: None };
             }
@@ -435,6 +445,10 @@ impl C06 {
                     if c < 0x80 {
                         return Some(g.expected.get(&c).copied().unwrap_or(0));
                     }
+                    // a character that has no Big5 code is not mapped by a Big5 subtable: glyph 0
+                    if NO_BIG5_CODE.contains(&c) {
+                        return Some(0);
+                    }
                     let code = c06_tables::BIG5_SAMPLE.iter().find(|(u, _)| *u == c)?.1;
                     if let Some(l) = &g.valid2 {
                         if !valid_code_fmt2(l, code as u32) {
@@ -476,6 +490,12 @@ impl C06 {
                 }
                 for _ in 0..20 {
                     chars.push(char::from_u32(rng.pick(c06_tables::BIG5_SAMPLE).0).unwrap());
+                }
+                for &c in NO_BIG5_CODE {
+                    chars.push(char::from_u32(c).unwrap());
+                }
+                if g.expected.get(&0).map_or(false, |x| *x != 0) {
+                    cx.class("big5:code-0-mapped-and-characters-without-big5-code-probed");
                 }
             }
         }
